@@ -15,6 +15,7 @@ var registry = map[string]core.Harness{
 	"C28": AI{},
 	"C33": HIST{},
 	"C47": UND{},
+	"C08": GCX{},
 }
 
 func TestSim(t *testing.T) { core.WorkerMain(t, registry) }
